@@ -6,6 +6,7 @@ import (
 	"io"
 	"net/http"
 	"net/url"
+	"time"
 
 	"github.com/golang-jwt/jwt"
 
@@ -20,11 +21,11 @@ import (
 // ---------------------------------------------------------------------------
 
 var (
-	vCalls   [8]string
-	vNCalls  int
-	errNope  = errors.New("rejected (harness)")
+	vCalls    [8]string
+	vNCalls   int
+	errNope   = errors.New("rejected (harness)")
 	vSeenBody []byte
-	vSawBody bool
+	vSawBody  bool
 )
 
 func vVerdict(who string) error {
@@ -36,11 +37,13 @@ func vVerdict(who string) error {
 	return errNope
 }
 
-func vHeadersValidate(v httpheader.Validator, h *httpheader.HTTPHeader) error { return vVerdict("headers") }
-func vJWTValidate(v *JWTValidator, r *httpprot.Request) error                { return vVerdict("jwt") }
-func vSignerVerify(s *signer.Signer, r *http.Request) error                  { return vVerdict("signature") }
-func vOAuth2Validate(v *OAuth2Validator, r *httpprot.Request) error          { return vVerdict("oauth2") }
-func vBasicValidate(v *BasicAuthValidator, r *httpprot.Request) error        { return vVerdict("basic") }
+func vHeadersValidate(v httpheader.Validator, h *httpheader.HTTPHeader) error {
+	return vVerdict("headers")
+}
+func vJWTValidate(v *JWTValidator, r *httpprot.Request) error         { return vVerdict("jwt") }
+func vSignerVerify(s *signer.Signer, r *http.Request) error           { return vVerdict("signature") }
+func vOAuth2Validate(v *OAuth2Validator, r *httpprot.Request) error   { return vVerdict("oauth2") }
+func vBasicValidate(v *BasicAuthValidator, r *httpprot.Request) error { return vVerdict("basic") }
 
 func vRealIP(r *http.Request) string { return "9.9.9.9" }
 
@@ -504,4 +507,42 @@ func vNoColonNL(s string) bool {
 		}
 	}
 	return ok
+}
+
+// ---- the Validator's generation change over the Basic-auth user stores ----------------------
+// newHtpasswdUserCache is replaced by a constructor that only remembers WHICH file the store
+// stands for (reading and watching the file are outside the engine's reach); Match answers for
+// the one user each file knows, named after the file.
+func vNewFileStore(userFile string, d time.Duration) *htpasswdUserCache {
+	return &htpasswdUserCache{userFile: userFile}
+}
+
+func vFileStoreMatch(c *htpasswdUserCache, user, pass string) bool {
+	return user == "user-of-"+c.userFile && pass == "pw"
+}
+
+// verifC06_InheritUserStore: "Basic credentials must equal a CURRENTLY configured user's" across
+// an update of the Validator: the new generation (Inherit) answers from the user file the NEW
+// spec names - a user of the old file only is refused, a user of the new file is admitted -
+// whether the file changed or not.
+func verifC06_InheritUserStore() {
+	files := []string{"/etc/users-a", "/etc/users-b"}
+	oldFile := files[verifChoose("old.userFile", 2)]
+	newFile := files[verifChoose("new.userFile", 2)]
+	v1 := &Validator{spec: &Spec{BasicAuth: &BasicAuthValidatorSpec{Mode: "FILE", UserFile: oldFile}}}
+	v1.Init()
+	v2 := &Validator{spec: &Spec{BasicAuth: &BasicAuthValidatorSpec{Mode: "FILE", UserFile: newFile}}}
+	v2.Inherit(v1)
+	verifAssert(v2.basicAuth != nil, "basic-auth-configured")
+	try := func(user string) bool {
+		std := &http.Request{Method: "GET", URL: &url.URL{Path: "/"}, Header: http.Header{}}
+		std.Header.Set("Authorization", "Basic "+user+":pw") // base64 = identity (replaced decoder)
+		req, _ := httpprot.NewRequest(std)
+		return v2.basicAuth.Validate(req) == nil
+	}
+	verifAssert(try("user-of-"+newFile), "user-of-the-currently-configured-file-is-admitted")
+	if oldFile != newFile {
+		verifAssert(!try("user-of-"+oldFile), "user-of-the-previous-file-only-is-refused")
+		verifCover("user-file-changed-by-the-update")
+	}
 }
